@@ -67,8 +67,8 @@ HANDLE_CONFIGS = [   # (prov, access, shallow, deep, pickle)
     ("PSpFresh", True, 1, True, False),
     ("PIdFresh", True, 2, False, True),
     ("PIdCached", True, 1, False, False),
-    ("PSpFresh", False, 1, False, True),      # early shallow copy
-    ("PIdFresh", False, 1, True, False),      # early shallow copy of a by-id handle
+    ("PSpFresh", False, 1, False, True),      # shallow copy taken before any access (follows since fix 0894ce6)
+    ("PIdFresh", False, 1, True, False),      # shallow copy of a by-id handle taken before any access (follows since fix 0894ce6)
     ("PIdCached", False, 0, True, True),
     ("PInit", True, 0, False, False),
     ("PUninit", False, 1, True, False),
